@@ -452,16 +452,66 @@ Proof.
   constructor; [apply slice_rel; exact H | exact IH].
 Qed.
 
+(* np.isfinite of the image of an integer is True: the guard
+   "not (isfinite(x) or isfinite(y))" of point_intersects_polygon is not taken *)
+Lemma Fint_isfinite : forall f z, Fint f z -> fisfinite f = true.
+Proof.
+  intros f z [Ff _]. unfold fisfinite. rewrite is_finite_equiv. exact Ff.
+Qed.
+
 Theorem point_intersects_polygon_float_exact_rel : forall x y zx zy fs zs offs,
   FintS x zx -> FintS y zy -> Forall2 FintS fs zs ->
   fpoint_intersects_polygon x y fs offs = point_intersects_polygon zx zy zs offs.
 Proof.
   intros x y zx zy fs zs offs Hx Hy H.
   unfold fpoint_intersects_polygon, point_intersects_polygon, fwinding_number, winding_number.
+  rewrite (Fint_isfinite _ _ (proj1 Hx)). cbn [orb negb].
   f_equal. f_equal.
   apply (fold_sum_rel (Forall2 FintS)).
   - apply frings_rel, H.
   - intros a b Hab. apply pip_ring_float_exact; assumption.
+Qed.
+
+(* ---- empty points (C17): a point without any finite coordinate ----
+   [fnonfinite v]: v is a NaN (any payload), +inf or -inf, i.e. np.isfinite(v) is False *)
+Definition fnonfinite (v : float) : Prop :=
+  is_nan v = true \/ v = infinity \/ v = neg_infinity.
+
+Lemma fnonfinite_not_isfinite : forall v, fnonfinite v -> fisfinite v = false.
+Proof.
+  intros v [H|[H|H]]; unfold fisfinite, is_finite.
+  - rewrite H. reflexivity.
+  - subst v. reflexivity.
+  - subst v. reflexivity.
+Qed.
+
+(* the converse: np.isfinite(v) False leaves only NaN and the two infinities *)
+Lemma not_isfinite_fnonfinite : forall v, fisfinite v = false -> fnonfinite v.
+Proof.
+  intros v H. unfold fisfinite, is_finite in H.
+  apply negb_false_iff, orb_true_iff in H. destruct H as [H|H]; [left; exact H|right].
+  rewrite is_infinity_equiv in H.
+  rewrite <- (B2Prim_Prim2B v).
+  destruct (Prim2B v) as [s|s| |s m e Hb]; try discriminate H.
+  destruct s; [right|left]; reflexivity.
+Qed.
+
+(* every mixture of NaN / +inf / -inf in the two coordinates: inside no polygon,
+   whatever the buffers hold (no well-formedness needed) *)
+Theorem empty_point_in_no_polygon : forall x y values offs,
+  fnonfinite x -> fnonfinite y -> fpoint_intersects_polygon x y values offs = false.
+Proof.
+  intros x y values offs Hx Hy. unfold fpoint_intersects_polygon.
+  rewrite (fnonfinite_not_isfinite _ Hx), (fnonfinite_not_isfinite _ Hy). reflexivity.
+Qed.
+
+(* part (b): a point with at least one finite coordinate is answered by its winding number *)
+Theorem nonempty_point_winding : forall x y values offs,
+  fisfinite x = true \/ fisfinite y = true ->
+  fpoint_intersects_polygon x y values offs = negb (fwinding_number x y values offs =? 0)%Z.
+Proof.
+  intros x y values offs H. unfold fpoint_intersects_polygon.
+  destruct H as [H|H]; rewrite H; [|rewrite orb_true_r]; reflexivity.
 Qed.
 
 (* ====================================================================
